@@ -117,7 +117,7 @@ def reads(chk, prog, cfg):
             elif core.call_matches(t, GOOD_READ):
                 total_good += 1
                 chk.ob("R4.reads", fn, f"{t['callee'].split('::')[-1]}@{describe_short(prog, b, t)}", True, where=b.where(blk), cfg=cfg)
-    chk.floor(f"segmentation-proof reads in the request parser [{cfg}]", total_good, 4 + (1 if cfg == "A" else 0))
+    chk.floor(f"segmentation-proof reads in the request parser [{cfg}]", total_good, 2)
     # body buffer
     fn = "humphrey::http::request::Request::from_stream_inner"
     b = prog.impl_body(fn)
@@ -143,7 +143,7 @@ def reads(chk, prog, cfg):
             "BufReader" in (t.get("arg_tys") or [""])[0]
         chk.ob("R4.one_reader", fn, f"{t['callee'].split('::')[-1]}@{describe_short(prog, b, t)} reads through the BufReader", thru,
                f"receiver is {core.short(str(rd))[:120]} ({(t.get('arg_tys') or ['?'])[0]})", where=b.where(blk), cfg=cfg)
-    chk.floor(f"reads after the BufReader was created [{cfg}]", nrd, 3)
+    chk.floor(f"reads after the BufReader was created [{cfg}]", nrd, 1)
     found = 0
     for blk, t in b.calls_to(r"read_exact$"):
         buf = describe(prog, b, t["args"][1])
